@@ -166,6 +166,9 @@ func genbankVersionParser(gb *GenBank, depth int) pars.Parser {
 }
 
 func genbankDBLinkPairParser(gb *GenBank, depth int) pars.Parser {
+	// Dictionary.Set finds a key by walking the list, once per entry: keep
+	// an index of the keys of this record instead.
+	index := map[string]int{}
 	return func(state *pars.State, result *pars.Result) error {
 		pars.Line(state, result)
 		s := string(result.Token)
@@ -177,7 +180,12 @@ func genbankDBLinkPairParser(gb *GenBank, depth int) pars.Parser {
 				return pars.NewError("expected value after `:`", state.Position())
 			}
 			db, id := s[:i], s[i+2:]
-			gb.Fields.DBLink.Set(db, id)
+			if j, ok := index[db]; ok {
+				gb.Fields.DBLink[j].Value = id
+			} else {
+				index[db] = len(gb.Fields.DBLink)
+				gb.Fields.DBLink = append(gb.Fields.DBLink, Pair{db, id})
+			}
 			return nil
 		}
 	}
